@@ -96,6 +96,7 @@ def _work(arg):
                              'model': o.model, 'detail': o.detail, 'seconds': o.seconds,
                              'known': o.known}
                             for o in res.obligations],
+            'live_paths': getattr(res, 'live_paths', 0),
             'stats': dict(smt.STATS),
             'variant': getattr(it, 'variant_name', None),
         }
@@ -115,7 +116,7 @@ def sanitize(s):
     return re.sub(r'[^A-Za-z0-9_.-]+', '_', s)[:150]
 
 
-def replay(prop, mod, func, ob, replay_dir):
+def replay(prop, mod, func, ob, replay_dir, search=False):
     """write the replay file; run the function's concretiser if there is one.
     -> (path, reproduced: True/False/None)"""
     os.makedirs(replay_dir, exist_ok=True)
@@ -140,6 +141,9 @@ def replay(prop, mod, func, ob, replay_dir):
         try:
             env = dict(os.environ)
             env['PYTHONPATH'] = REPO + os.pathsep + env.get('PYTHONPATH', '')
+            env.pop('PYVC_SEARCH', None)
+            if search:
+                env['PYVC_SEARCH'] = '1'
             r = subprocess.run([REPLAY_PY, os.path.join(HERE, rp), path], capture_output=True,
                                text=True, timeout=120, env=env, cwd=HERE)
             output = (r.stdout + r.stderr)[-4000:]
@@ -148,7 +152,13 @@ def replay(prop, mod, func, ob, replay_dir):
                 reproduced = None
         except subprocess.TimeoutExpired:
             output = 'replay timed out'
+    if reproduced and search:
+        try:
+            data.update({k: v for k, v in json.load(open(path)).items() if k not in data})
+        except Exception:
+            pass
     data['replay_reproduced_on_real_code'] = reproduced
+    data['replay_mode'] = 'bounded search for a failing input' if search else 'counter-model'
     data['replay_output'] = output
     with open(path, 'w') as fh:
         json.dump(data, fh, indent=1, default=str)
@@ -206,6 +216,8 @@ def main(argv):
         funcs.append(fn_ob)
         if not r['obligations'] and not r['error']:
             errors.append((r['qualname'], ('vacuity', 'zero obligations generated')))
+        if r.get('live_paths', 1) == 0 and not r['error'] and not r['qualname'].startswith('lemma:'):
+            errors.append((r['qualname'], ('vacuity', 'no path ends with a satisfiable path condition (contradictory contract?)')))
         for o in r['obligations']:
             total += 1
             full = r['qualname'] + '/' + o['name']
@@ -264,15 +276,38 @@ def main(argv):
             os.unlink(os.path.join(replay_dir, _f))
     viol_lines = []
     seen = set()
+    # An obligation taken from the property (post / raises / noraise / callee
+    # precondition) that is refuted is a violation.  If *only* auxiliary proof
+    # steps fail in a function (loop invariant entry/preservation, frames), the
+    # counter-model is a loop-head state, not an input: the function's
+    # concretiser then searches (bounded) for a failing input on the real code;
+    # without one the verdict is UNDECIDED, not a violation.
+    def is_aux(name):
+        return bool(re.match(r'(loop\d+\.|frame\.|yield\.)', name))
+    by_func = {}
     for r, o in violations:
-        key = (r['qualname'], o['name'])
-        path, reproduced = replay(prop, mod, r, o, replay_dir)
-        if key in seen:
+        by_func.setdefault(r['qualname'], []).append((r, o))
+    undecided_aux = []
+    for qn, lst in by_func.items():
+        tops = [(r, o) for r, o in lst if not is_aux(o['name'])]
+        if tops:
+            for r, o in lst:
+                key = (r['qualname'], o['name'])
+                if key in seen:
+                    continue
+                seen.add(key)
+                path, reproduced = replay(prop, mod, r, o, replay_dir)
+                suffix = '' if reproduced else ' no-failing-input-found'
+                viol_lines.append('VIOLATION property=%s replay=%s obligation=%s/%s%s' % (
+                    prop, path, r['qualname'], o['name'], suffix))
             continue
-        seen.add(key)
-        suffix = '' if reproduced else ' no-failing-input-found'
-        viol_lines.append('VIOLATION property=%s replay=%s obligation=%s/%s%s' % (
-            prop, path, r['qualname'], o['name'], suffix))
+        r, o = lst[0]
+        path, reproduced = replay(prop, mod, r, o, replay_dir, search=True)
+        names = sorted(set(x[1]['name'] for x in lst))
+        if reproduced:
+            viol_lines.append('VIOLATION property=%s replay=%s obligation=%s/%s' % (prop, path, qn, o['name']))
+        else:
+            undecided_aux.append((qn, names, path))
 
     known_replays = {}
     for fid, (r, o) in known_first.items():
@@ -340,6 +375,8 @@ def main(argv):
             print('NOTE: recorded finding %s no longer reproduces (obligation %s is discharged or gone)' % (f['id'], f['obligation']))
     hard = [e for e in errors if e[1][0] in ('internal', 'contract', 'vacuity')]
     soft = [e for e in errors if e[1][0] in ('unsupported', 'missing', 'unknown')]
+    for qn, names, path in undecided_aux:
+        soft.append((qn, ('undecided', 'proof steps %s no longer go through and no failing input was found (bounded search: %s)' % (names[:4], path))))
     if stats.get('disagreements', 0):
         print('CHECKER-ERROR: solver disagreement')
         return 3
